@@ -70,17 +70,23 @@ func report(prop, tier string, seed int, specs []HarnessSpec, known []KnownFindi
 
 	for _, r := range results {
 		sp := r.job.spec
-		s := sums[sp.Harness]
+		key := sp.Harness
+		if sp.Variant != "" {
+			key += " [" + sp.Variant + "]"
+		}
+		s := sums[key]
 		if s == nil {
 			ps := sp.Quick
 			if tier == "thorough" && sp.Thorough != nil {
 				ps = sp.Thorough
 			}
 			pj, _ := json.Marshal(ps)
-			s = &harnessSummary{Harness: sp.Harness, Family: sp.Family, Desc: sp.Desc, Bounds: sp.Bounds, Outside: sp.Outside, Params: string(pj)}
-			sums[sp.Harness] = s
-			order = append(order, sp.Harness)
-			reachHit[sp.Harness] = map[string]bool{}
+			s = &harnessSummary{Harness: key, Family: sp.Family, Desc: sp.Desc, Bounds: sp.Bounds, Outside: sp.Outside, Params: string(pj)}
+			sums[key] = s
+			order = append(order, key)
+			if reachHit[sp.Harness] == nil {
+				reachHit[sp.Harness] = map[string]bool{}
+			}
 		}
 		if !r.sub {
 			s.Instances++
@@ -154,8 +160,12 @@ func report(prop, tier string, seed int, specs []HarnessSpec, known []KnownFindi
 	// vacuity: every declared reach marker must have been hit, and every
 	// harness must have reached at least one assertion on a feasible path
 	for _, h := range order {
-		sp := specBy[h]
-		hit := reachHit[h]
+		base := h
+		if i := strings.Index(h, " ["); i >= 0 {
+			base = h[:i]
+		}
+		sp := specBy[base]
+		hit := reachHit[base]
 		anyAssert := false
 		var names []string
 		for k := range hit {
